@@ -188,3 +188,262 @@ Proof.
       * exists [], (b :: l). split; reflexivity.
       * exists ((b :: f) :: fs), l. split; reflexivity.
 Qed.
+
+(** a parsed line followed by a stray CR is unparsable *)
+Lemma parse_header_cr t : exists e, parse_header (t ++ [CR]) = Err e.
+Proof.
+  unfold parse_header. destruct (split_append_last SP t CR ltac:(unfold CR, SP; lia)) as (init & l & E1 & E2). rewrite E2.
+  destruct init as [|p0 [|p1 [|p2 [|p3 [|p4 [|p5 [|p6 [|p7 [|p8 [|p9 [|p10 [|p11 [|p12 init']]]]]]]]]]]]]; cbn [app];
+    try (eexists; reflexivity).
+  - (* exactly 13 fields: the last is [l ++ [CR]] *)
+    destruct (negb (bytes_eqb p0 CHAIN)); [eexists; reflexivity|].
+    destruct (parse_u64 p1); [|eexists; reflexivity].
+    destruct (seq_try_from_parts p2 p3 p4 p5 p6); [|eexists; reflexivity].
+    destruct (seq_try_from_parts p7 p8 p9 p10 p11); [|eexists; reflexivity].
+    rewrite parse_u64_cr. eexists; reflexivity.
+  - destruct init'; cbn [app]; eexists; reflexivity.
+Qed.
+Lemma parse_drec_cr t : exists e, parse_drec (t ++ [CR]) = Err e.
+Proof.
+  unfold parse_drec. destruct (split_append_last TAB t CR ltac:(unfold CR, TAB; lia)) as (init & l & E1 & E2). rewrite E2.
+  destruct init as [|p0 [|p1 [|p2 init']]]; cbn [app].
+  - rewrite parse_u64_cr. eexists; reflexivity.
+  - eexists; reflexivity.
+  - destruct (parse_u64 p0); [|eexists; reflexivity]. destruct (parse_u64 p1); [|eexists; reflexivity].
+    rewrite parse_u64_cr. eexists; reflexivity.
+  - destruct init'; cbn [app]; eexists; reflexivity.
+Qed.
+Lemma classify_cr n t : exists e, classify (ROk n (t ++ [CR])) = RBad e (t ++ [CR]).
+Proof.
+  unfold classify, parse_line. destruct (t ++ [CR]) as [|c r] eqn:E; [destruct t; discriminate|]. rewrite <- E.
+  destruct (starts_with CHAIN (t ++ [CR])).
+  - destruct (parse_header_cr t) as [e ->]. eexists; reflexivity.
+  - destruct (parse_drec_cr t) as [e ->]. eexists; reflexivity.
+Qed.
+
+(** ---------- (A) what a cut inside a raw line leaves ---------- *)
+(** relation between the text [t'] read from a non-empty proper prefix of a raw line and the text [t] of
+    the whole line: the same text (the cut fell in the terminator), the text plus a stray CR, or a
+    non-empty proper prefix of the text *)
+Definition cut_text (t' t : bytes) : Prop :=
+  t' = t \/ t' = t ++ [CR] \/ (exists r, t = t' ++ r /\ r <> [] /\ t' <> []).
+
+Require Import CF.Proofs.ReaderFacts CF.Proofs.ChunkFacts.
+
+Lemma chunk_shape b : forall cur c, In c (chunks_acc cur b) -> ~ In LF cur ->
+  (exists t0, c = t0 ++ [LF] /\ ~ In LF t0) \/ ~ In LF c.
+Proof.
+  induction b as [|x r IH]; intros cur c Hin Hcur; cbn [chunks_acc] in Hin.
+  - destruct cur as [|c0 cur']; [contradiction|]. destruct Hin as [<-|[]]. right. intros H. apply Hcur. apply in_rev. exact H.
+  - destruct (x =? LF) eqn:E.
+    + apply N.eqb_eq in E. subst x. destruct Hin as [<-|Hin].
+      * left. exists (rev cur). cbn [rev]. split; [reflexivity|]. intros H. apply Hcur. apply in_rev. exact H.
+      * apply (IH [] c Hin). intros [].
+    + apply (IH (x :: cur) c Hin). intros [H|H]; [subst; rewrite N.eqb_refl in E; discriminate|contradiction].
+Qed.
+
+Lemma strip_eol_lf t0 : exists t, strip_eol (t0 ++ [LF]) = t /\ (t0 = t \/ t0 = t ++ [CR]).
+Proof.
+  rewrite strip_eol_rev, rev_app_distr. cbn [rev app]. rewrite N.eqb_refl.
+  destruct (rev t0) as [|y r'] eqn:Er.
+  - assert (t0 = []) by (apply (f_equal (@rev N)) in Er; rewrite rev_involutive in Er; exact Er). subst. exists []. auto.
+  - assert (Ht0: t0 = rev r' ++ [y]) by (apply (f_equal (@rev N)) in Er; rewrite rev_involutive in Er; exact Er).
+    destruct (y =? CR) eqn:Ey.
+    + apply N.eqb_eq in Ey. subst y. exists (rev r'). auto.
+    + exists t0. split; [rewrite Ht0; cbn [rev]; reflexivity|auto].
+Qed.
+Lemma strip_eol_nolf c : ~ In LF c -> strip_eol c = c.
+Proof.
+  intros H. rewrite strip_eol_rev. destruct (rev c) as [|y r] eqn:Er; [reflexivity|].
+  destruct (y =? LF) eqn:E; [|reflexivity]. apply N.eqb_eq in E. subst y. exfalso. apply H. apply in_rev. rewrite Er. left. reflexivity.
+Qed.
+
+Lemma cut_of_prefix p c : (exists t0, c = t0 ++ [LF] /\ ~ In LF t0) \/ ~ In LF c -> proper_prefix p c -> ~ In LF p ->
+  cut_text p (strip_eol c).
+Proof.
+  intros Hshape (rest & Hc & Hrest & Hp) Hnp. destruct Hshape as [(t0 & -> & Hn0)|Hnc].
+  - assert (Hpre: exists r0, t0 = p ++ r0).
+    { symmetry in Hc. apply app_eq_app in Hc as [l [[H1 H2]|[H1 H2]]].
+      - destruct l as [|y l'].
+        + rewrite app_nil_r in H1. exists []. rewrite app_nil_r. symmetry; exact H1.
+        + exfalso. cbn in H2. injection H2 as Hy Hl. symmetry in Hl. apply app_eq_nil in Hl as [_ Hr]. contradiction.
+      - exists l. exact H1. }
+    destruct Hpre as [r0 Ht0]. destruct (strip_eol_lf t0) as (t & -> & [Ht|Ht]).
+    + subst t. destruct r0 as [|y r0'].
+      * left. rewrite Ht0, app_nil_r. reflexivity.
+      * right. right. exists (y :: r0'). split; [exact Ht0|]. split; [discriminate|exact Hp].
+    + rewrite Ht in Ht0. apply app_eq_app in Ht0 as [l [[H1 H2]|[H1 H2]]].
+      * (* t = p ++ l, r0 = l ++ [CR] *) destruct l as [|y l'].
+        -- left. rewrite H1, app_nil_r. reflexivity.
+        -- right. right. exists (y :: l'). split; [exact H1|]. split; [discriminate|exact Hp].
+      * (* p = t ++ l, [CR] = l ++ r0 *) destruct l as [|y l'].
+        -- left. rewrite H1, app_nil_r. reflexivity.
+        -- cbn in H2. injection H2 as Hy Hl. symmetry in Hl. apply app_eq_nil in Hl as [-> ->]. right. left. rewrite H1, <- Hy. reflexivity.
+  - rewrite strip_eol_nolf by exact Hnc. right. right. exists rest. auto.
+Qed.
+
+(** ---------- (E) assembling ---------- *)
+Lemma tot_app f l1 l2 : tot f (l1 ++ l2) = tot f l1 + tot f l2.
+Proof. induction l1 as [|c r IH]; cbn [app tot]; [lia|]. rewrite IH. lia. Qed.
+Lemma push_pairs_app hm l1 l2 : push_pairs hm (l1 ++ l2) = push_pairs (push_pairs hm l1) l2.
+Proof. unfold push_pairs. apply fold_left_app. Qed.
+
+Lemma build_secs_loop_app l1 : forall l2 b, build_secs_loop (l1 ++ l2) b =
+  match build_secs_loop l1 b with Val (Ok b') => build_secs_loop l2 b' | other => other end.
+Proof.
+  induction l1 as [|s r IH]; intros l2 b; cbn [app build_secs_loop]; [reflexivity|].
+  destruct (add_section b s) as [[b'|e]|p]; try reflexivity. apply IH.
+Qed.
+
+(** the section cut at a data line that now reads as a (smaller or equal) terminating record *)
+Lemma add_section_cut b h done d more d' :
+  hdr_ok h -> sums_ok {| shdr := h; sdata := done ++ d :: more |} ->
+  dterm d' = true -> ddt d' = None -> ddq d' = None -> dsize d' <= dsize d ->
+  (exists e, add_section b {| shdr := h; sdata := done ++ [d'] |} = Val (Err e)) \/
+  add_section b {| shdr := h; sdata := done ++ [d'] |} = add_section b {| shdr := h; sdata := done ++ d :: more |}.
+Proof.
+  intros Hh Hsum Ht Hdt Hdq Hle.
+  rewrite !add_section_closed by exact Hh. cbn [shdr sdata].
+  destruct (dict_update (bqry b) _ _) as [qd|]; [|right; reflexivity].
+  destruct (dict_update (bref b) _ _) as [rd|]; [|right; reflexivity].
+  assert (Hfull: no_err (spec_run (seq_ival (href h)) (seq_ival (hqry h)) 0 0 (done ++ d :: more)) = true).
+  { apply (sums_ok_of_no_err {| shdr := h; sdata := done ++ d :: more |} Hh). exact Hsum. }
+  rewrite (push_items_spec_run h (done ++ d :: more) 0 0 (bhm b) Hfull).
+  destruct (no_err (spec_run (seq_ival (href h)) (seq_ival (hqry h)) 0 0 (done ++ [d']))) eqn:Hcut.
+  2:{ left. destruct (proj2 (push_items_err_iff (bhm b) _) Hcut) as [e He]. rewrite He. eexists; reflexivity. }
+  right. rewrite (push_items_spec_run h (done ++ [d']) 0 0 (bhm b) Hcut).
+  assert (Hs': sums_ok {| shdr := h; sdata := done ++ [d'] |}) by (apply (sums_ok_of_no_err {| shdr := h; sdata := done ++ [d'] |} Hh); exact Hcut).
+  destruct Hsum as [S1 S2]. destruct Hs' as [C1 C2]. cbn [shdr sdata] in *.
+  rewrite !tot_app in *. cbn [tot] in *. rewrite Hdt, Hdq in *. cbn [gap] in *.
+  assert (Esz: dsize d' = dsize d) by lia.
+  assert (Z1: tot ddt more = 0) by lia. assert (G1: gap (ddt d) = 0) by lia. assert (G2: gap (ddq d) = 0) by lia.
+  rewrite !N.add_0_r. rewrite !blocks_local_app. cbn [blocks_local]. rewrite !map_app. cbn [map]. rewrite !push_pairs_app.
+  rewrite Esz.
+  assert (Hcons: forall hm p l, push_pairs hm (p :: l) = push_pairs (push_pair hm p) l) by reflexivity.
+  rewrite !Hcons. rewrite (push_pairs_zero_blocks h _ _ _ more (tot_zero_sizes ddt more Z1)). reflexivity.
+Qed.
+
+Lemma firstn_snoc {A} (l : list A) i x : nth_error l i = Some x -> firstn (S i) l = firstn i l ++ [x].
+Proof.
+  revert i. induction l as [|a l IH]; intros [|i] H; try discriminate.
+  - injection H as ->. reflexivity.
+  - cbn [firstn app]. f_equal. apply IH. exact H.
+Qed.
+Lemma nth_split {A} (l : list A) i x : nth_error l i = Some x -> l = firstn i l ++ x :: skipn (S i) l.
+Proof.
+  revert i. induction l as [|a l IH]; intros [|i] H; try discriminate.
+  - injection H as ->. reflexivity.
+  - cbn [firstn skipn app]. f_equal. apply IH. exact H.
+Qed.
+Lemma firstn_skipn_cons {A} (f : list A) j s r : skipn j f = s :: r -> firstn (S j) f = firstn j f ++ [s].
+Proof.
+  revert j. induction f as [|a f IH]; intros [|j] H; try discriminate.
+  - cbn in H. injection H as -> _. reflexivity.
+  - cbn [firstn app]. f_equal. apply IH. exact H.
+Qed.
+Lemma skipn_in {A} (f : list A) j x : In x (skipn j f) -> In x f.
+Proof. revert j. induction f as [|a f IH]; intros [|j] H; cbn [skipn] in H; auto. right. eapply IH; eauto. Qed.
+
+Lemma build_reads_items rs items : spec_sections None 0 rs = items ->
+  build_reads rs = match build_items items bstate0 with
+                   | Panic s => Panic s | Val (Err e) => Val (Err e) | Val (Ok b) => Val (Ok (machine_of_bstate b)) end.
+Proof. intros <-. unfold build_reads, sections_new. rewrite build_loop_grammar by lia. reflexivity. Qed.
+
+(** C08 (a cut inside a line), at the level of line reads: replace line i of an accepted stream by what a
+    cut inside that raw line leaves ([r']) and drop everything after it: the build fails, or gives the
+    machine of a whole-chain prefix of the file. *)
+Theorem build_reads_cut rs f m i n t r' :
+  spec_sections None 0 rs = map Ok f -> build_secs f = Val (Ok m) ->
+  nth_error rs i = Some (ROk n t) ->
+  ((exists e k, r' = RErr e k) \/ exists n' t', r' = ROk n' t' /\ cut_text t' t) ->
+  (exists j, build_reads (firstn i rs ++ [r']) = build_secs (firstn j f)) \/
+  (exists e, build_reads (firstn i rs ++ [r']) = Val (Err e)).
+Proof.
+  intros Hf Hb Hnth Hr'.
+  assert (Hok: Forall sec_ok f).
+  { pose proof (spec_sections_ok rs None 0 I) as Ho. rewrite Hf in Ho. rewrite Forall_forall in *. intros s Hs.
+    apply (Ho (Ok s)). apply in_map. exact Hs. }
+  destruct (build_secs_inv f m Hok Hb) as (bb & _ & Hloop & Hsums & _).
+  pose proof (nth_split rs i _ Hnth) as Hrs.
+  rewrite Hrs in Hf. destruct (spec_sections_split (firstn i rs) None 0 _ f Hf) as (j & cur' & idx' & H1 & H2).
+  assert (Hpre: Forall sec_ok (firstn j f)).
+  { rewrite Forall_forall in *. intros s Hs. apply Hok. eapply in_firstn; eauto. }
+  (* outcome when what follows the prefix is a single error item *)
+  assert (Herr: forall e, spec_sections cur' idx' [r'] = [Err e] -> exists e', build_reads (firstn i rs ++ [r']) = Val (Err e')).
+  { intros e He. rewrite (build_reads_items _ _ (H1 [r'])), He.
+    destruct (build_items_err_tail (firstn j f) Hpre e bstate0) as [e' ->]. eexists; reflexivity. }
+  destruct Hr' as [(e & k & ->)|(n' & t' & -> & Hcut)].
+  { right. apply (Herr (EIo e)). cbn [spec_sections classify]. reflexivity. }
+  destruct Hcut as [->|[->|(r & Ht & Hrne & Ht'ne)]].
+  - (* same text: this is the stream cut after line i *)
+    rewrite (build_reads_classify (firstn i rs ++ [ROk n' t]) (firstn (S i) rs)).
+    + rewrite <- Hrs in Hf. apply (build_reads_prefix rs f (S i) Hf).
+    + rewrite (firstn_snoc rs i _ Hnth), !map_app. reflexivity.
+    + rewrite (firstn_snoc rs i _ Hnth), !app_length. reflexivity.
+  - (* text followed by a stray CR *)
+    right. destruct (classify_cr n' t) as [e He]. apply (Herr (EBadLine e (t ++ [CR]))).
+    cbn [spec_sections]. rewrite He. reflexivity.
+  - (* a non-empty proper prefix of the text *)
+    destruct (classify (ROk n' t')) as [|h'|d'|e0 t0|e0] eqn:C.
+    + apply classify_blank_text in C. contradiction.
+    + right. destruct cur' as [s|].
+      * apply (Herr (EHdrIn h')). cbn [spec_sections]. rewrite C. reflexivity.
+      * apply (Herr EAbrupt). cbn [spec_sections]. rewrite C. reflexivity.
+    + destruct cur' as [s|].
+      2:{ right. apply (Herr (EDataBetween d')). cbn [spec_sections]. rewrite C. reflexivity. }
+      destruct (dterm d') eqn:T.
+      2:{ right. apply (Herr EAbrupt). cbn [spec_sections]. rewrite C, T. reflexivity. }
+      (* the cut line reads as a terminating record: the section completes early *)
+      destruct (spec_sections_extends_next _ _ _ _ _ H2) as (d & more & f'' & Cx & Hskip).
+      destruct (classify_data_parse _ _ _ Cx) as [Pd _]. destruct (classify_data_parse _ _ _ C) as [Pd' _].
+      rewrite Ht in Pd. pose proof (drec_prefix _ _ _ _ Pd Pd' T) as Hle.
+      destruct (parse_drec_ok _ _ Pd') as [Hdok _]. unfold drec_ok in Hdok. rewrite T in Hdok. destruct Hdok as [Hdt Hdq].
+      set (s_full := {| shdr := shdr s; sdata := sdata s ++ d :: more |}) in *.
+      set (s_cut := {| shdr := shdr s; sdata := sdata s ++ [d'] |}).
+      assert (Hin: In s_full f) by (apply (skipn_in f j); rewrite Hskip; left; reflexivity).
+      assert (Hhs: hdr_ok (shdr s)) by (rewrite Forall_forall in Hok; apply (Hok s_full Hin)).
+      assert (Hss: sums_ok s_full) by (rewrite Forall_forall in Hsums; apply (Hsums s_full Hin)).
+      assert (Hspec: spec_sections None 0 (firstn i rs ++ [ROk n' t']) = map Ok (firstn j f ++ [s_cut])).
+      { rewrite (H1 [ROk n' t']). cbn [spec_sections]. rewrite C, T. rewrite map_app. reflexivity. }
+      rewrite (build_reads_items _ _ Hspec), build_items_oks, build_secs_loop_app.
+      (* the prefix builds, because the whole file does *)
+      assert (Hf_split: f = firstn j f ++ s_full :: f'') by (rewrite <- Hskip; symmetry; apply firstn_skipn).
+      rewrite Hf_split, build_secs_loop_app in Hloop.
+      destruct (build_secs_loop (firstn j f) bstate0) as [[bpre|e]|p] eqn:Epre; try discriminate.
+      cbn [build_secs_loop] in Hloop |- *.
+      destruct (add_section_cut bpre (shdr s) (sdata s) d more d' Hhs Hss T Hdt Hdq Hle) as [[e He]|Heq].
+      * right. fold s_cut in He. rewrite He. eexists; reflexivity.
+      * left. exists (S j). fold s_cut s_full in Heq. rewrite Heq.
+        rewrite (firstn_skipn_cons f j _ _ Hskip). unfold build_secs. rewrite build_secs_loop_app, Epre. cbn [build_secs_loop].
+        destruct (add_section bpre s_full) as [[b1|e1]|p1]; reflexivity.
+    + right. apply (Herr (EBadLine e0 t0)). cbn [spec_sections]. rewrite C. reflexivity.
+    + unfold classify in C. destruct (parse_line t') as [[|?|?]|?]; discriminate.
+Qed.
+
+(** ---------- C08 at byte level ---------- *)
+Theorem build_truncated b m k : build (src_of_bytes b) = Val (Ok m) ->
+  exists f, spec_sections None 0 (raw_reads (src_of_bytes b)) = map Ok f /\ build_secs f = Val (Ok m) /\
+    ((exists j, build (src_of_bytes (firstn k b)) = build_secs (firstn j f)) \/
+     (exists e, build (src_of_bytes (firstn k b)) = Val (Err e))).
+Proof.
+  unfold build. intros Hb. destruct (build_reads_ok_inv _ _ Hb) as (f & Hf & Hok & Hbs & Hsums).
+  exists f. split; [exact Hf|]. split; [exact Hbs|].
+  destruct (raw_reads_truncated b k) as [i [->|(p & c & Hnth & Hpp & Hnp & ->)]].
+  - apply build_reads_prefix. exact Hf.
+  - rewrite raw_reads_chunks in *.
+    assert (Hnth': nth_error (map read_of (chunks b)) i = Some (read_of c)) by (rewrite nth_error_map, Hnth; reflexivity).
+    assert (Hc_in: In c (chunks b)) by (eapply nth_error_In; eauto).
+    (* the whole line was read without error, since the stream is accepted *)
+    assert (Hrc: read_of c = ROk (N.of_nat (length c)) (strip_eol c)).
+    { unfold read_of. destruct (negb (utf8_valid c)) eqn:V; [|reflexivity]. exfalso.
+      assert (Hin: In (read_of c) (map read_of (chunks b))) by (apply in_map; exact Hc_in).
+      destruct (spec_sections_io_err _ None 0 (read_of c) IoUtf8 Hin) as [e' He'].
+      { unfold read_of. rewrite V. reflexivity. }
+      rewrite Hf in He'. apply in_map_iff in He' as (s & Hs & _). discriminate. }
+    rewrite Hrc in Hnth'.
+    apply (build_reads_cut _ f m i _ _ (read_of p) Hf Hbs Hnth').
+    rewrite (read_of_prefix p Hnp). destruct (negb (utf8_valid p)).
+    + left. eauto.
+    + right. exists (N.of_nat (length p)), p. split; [reflexivity|].
+      apply cut_of_prefix; [|exact Hpp|exact Hnp]. apply (chunk_shape b [] c Hc_in). intros [].
+Qed.
